@@ -145,12 +145,16 @@ static void scen_wake(void)
 		for (int i = 0; i < wk.nops; i++) {
 			if (wk.ops[i] == 1) { MC_COUNT("oracle_wake_active"); if (wk.act_at >= HORIZON_US) mc_fail("C09/lost-wakeup/event_active", "activation from another thread only ran at virtual t=%lld us (far timer)", (long long)wk.act_at); }
 			if (wk.ops[i] == 2) { MC_COUNT("oracle_wake_timer"); if (wk.tmr_at >= HORIZON_US) mc_fail("C09/lost-wakeup/event_add-timer", "1 ms timer added from another thread fired at virtual t=%lld us", (long long)wk.tmr_at);
-				else if (wk.tmr_at < wk.tmr_added_at + 1000) mc_fail("C09/wake/timer-early", "fired at %lld, added at %lld", (long long)wk.tmr_at, (long long)wk.tmr_added_at); }
+				else if (!free_mode && wk.tmr_at < wk.tmr_added_at + 1000) mc_fail("C09/wake/timer-early", "fired at %lld, added at %lld", (long long)wk.tmr_at, (long long)wk.tmr_added_at); }
 			if (wk.ops[i] == 3) { MC_COUNT("oracle_wake_io"); if (wk.io_at >= HORIZON_US) mc_fail("C09/lost-wakeup/event_add-io", "read event added from another thread on a readable pipe only ran at virtual t=%lld us", (long long)wk.io_at); }
 		}
 	}
 	if (wk.act_runs > wk.acts) mc_fail("C09/wake/extra-callback", "%d runs for %d activations", wk.act_runs, wk.acts);
-	if (wk.tmr_runs > 1 || wk.io_runs > 1) mc_fail("C09/wake/duplicate-callback", "timer %d io %d", wk.tmr_runs, wk.io_runs);
+	{	/* a one-shot event runs at most once per add */
+		int tmr_adds = 0, io_adds = 0;
+		for (int i = 0; i < wk.nops; i++) { tmr_adds += wk.ops[i] == 2; io_adds += wk.ops[i] == 3; }
+		if (wk.tmr_runs > tmr_adds || wk.io_runs > io_adds) mc_fail("C09/wake/duplicate-callback", "timer ran %d times for %d adds, io %d for %d", wk.tmr_runs, tmr_adds, wk.io_runs, io_adds);
+	}
 	int64_t t_before_break = vclock_us;
 	final_break();
 	sched_join(t1);
@@ -345,6 +349,67 @@ static void scen_bev(void)
 	finish();
 }
 
+/* ------------------------------------------------------------------ mix */
+/* Two actor threads, two ops each, on a timer event e0 and a one-shot read event e1 (always-readable
+ * pipe) while the loop runs.  Checked at quiescence (loop parked on the far timer only, actors done):
+ * nothing is left active or armed (a lost notification would leave it so), callbacks never exceed
+ * the requests, an event that was only ever added/activated did run, base consistency holds. */
+#include "event-internal.h"
+struct mix { struct event *e[2], *far; int pipefd[2]; int runs[2], reqs[2], dels[2]; int ops[2][2]; int t1; };
+static struct mix mx;
+static const char *mix_name[] = { "add_timer(e0)", "del(e0)", "active(e0)", "add(e1)", "del(e1)", "active(e1)" };
+static void mix_cb(evutil_socket_t fd, short what, void *arg) { (void)fd; (void)what; mx.runs[(int)(long)arg]++; }
+static void mix_do(int op)
+{
+	struct timeval ms = { 0, 1000 };
+	switch (op) {
+	case 0: __sync_fetch_and_add(&mx.reqs[0], 1); event_add(mx.e[0], &ms); break;
+	case 1: __sync_fetch_and_add(&mx.dels[0], 1); event_del(mx.e[0]); break;
+	case 2: __sync_fetch_and_add(&mx.reqs[0], 1); event_active(mx.e[0], EV_WRITE, 1); break;
+	case 3: __sync_fetch_and_add(&mx.reqs[1], 1); event_add(mx.e[1], NULL); break;
+	case 4: __sync_fetch_and_add(&mx.dels[1], 1); event_del(mx.e[1]); break;
+	case 5: __sync_fetch_and_add(&mx.reqs[1], 1); event_active(mx.e[1], EV_WRITE, 1); break;
+	}
+}
+static void mix_actor(void *arg) { int t = (int)(long)arg; mix_do(mx.ops[t][0]); mix_do(mx.ops[t][1]); }
+static int mix_quiet(void *arg) { (void)arg; return loop_exited || (loop_started && sched_thread_idle(mx.t1, HORIZON_US)); }
+static void scen_mix(void)
+{
+	struct timeval hour = { 3600, 0 };
+	memset(&mx, 0, sizeof mx); far_fired = 0;
+	begin();
+	if (pipe2(mx.pipefd, O_NONBLOCK | O_CLOEXEC) < 0) abort();
+	if (write(mx.pipefd[1], "x", 1) != 1) abort();
+	mx.far = evtimer_new(base, far_cb, NULL); event_add(mx.far, &hour);
+	mx.e[0] = event_new(base, -1, 0, mix_cb, (void *)0L);
+	mx.e[1] = event_new(base, mx.pipefd[0], EV_READ, mix_cb, (void *)1L);
+	for (int t = 0; t < 2; t++) for (int i = 0; i < 2; i++) mx.ops[t][i] = pick(6, "mixop");
+	mc_observe("mix t2:[%s,%s] t3:[%s,%s]", mix_name[mx.ops[0][0]], mix_name[mx.ops[0][1]], mix_name[mx.ops[1][0]], mix_name[mx.ops[1][1]]);
+	arm_started();
+	mx.t1 = sched_spawn(loop_thread, NULL);
+	int t2 = sched_spawn(mix_actor, (void *)0L);
+	int t3 = sched_spawn(mix_actor, (void *)1L);
+	sched_join(t2); sched_join(t3);
+	sched_wait_until(mix_quiet, NULL);
+	MC_COUNT("oracle_mix_quiescent");
+	if (vclock_us >= HORIZON_US || far_fired) mc_fail("C09/mix/slept-to-far-timer", "virtual time reached %lld us", (long long)vclock_us);
+#ifndef C09_FREE
+	for (int i = 0; i < 2; i++) {
+		int p = event_pending(mx.e[i], EV_READ | EV_WRITE | EV_TIMEOUT, NULL);
+		if (p) mc_fail("C09/mix/request-not-processed", "loop is parked on the far timer but e%d is still pending/active (%#x)", i, p);
+		if (mx.runs[i] > mx.reqs[i]) mc_fail("C09/mix/extra-callback", "e%d ran %d times for %d requests", i, mx.runs[i], mx.reqs[i]);
+		if (mx.reqs[i] && !mx.dels[i] && !mx.runs[i]) mc_fail("C09/mix/request-lost", "e%d was added/activated %d times, never deleted, and never ran", i, mx.reqs[i]);
+	}
+#endif
+	event_base_assert_ok_(base);
+	final_break();
+	sched_join(mx.t1);
+	mc_observe(" -> runs=%d,%d", mx.runs[0], mx.runs[1]);
+	event_free(mx.e[0]); event_free(mx.e[1]); event_free(mx.far); event_free(started_ev);
+	close(mx.pipefd[0]); close(mx.pipefd[1]);
+	finish();
+}
+
 static const char *scen_arg = NULL;
 static void body(void)
 {
@@ -353,12 +418,13 @@ static void body(void)
 	else if (!strcmp(s, "del")) scen_del();
 	else if (!strcmp(s, "buf")) scen_buf();
 	else if (!strcmp(s, "bev")) scen_bev();
+	else if (!strcmp(s, "mix")) scen_mix();
 }
 
 #ifdef C09_FREE
 /* free-running pass: item = (repetition, driver parameters); repetition only changes the jitter */
 static uint64_t combo_cap;
-static uint64_t combos(const char *s) { uint64_t c = !strcmp(s, "wake") ? 32 : !strcmp(s, "del") ? 8 : !strcmp(s, "buf") ? 2401 : 2; return combo_cap && combo_cap < c ? combo_cap : c; }
+static uint64_t combos(const char *s) { uint64_t c = !strcmp(s, "wake") ? 32 : !strcmp(s, "del") ? 8 : !strcmp(s, "buf") ? 2401 : !strcmp(s, "mix") ? 1296 : 2; return combo_cap && combo_cap < c ? combo_cap : c; }
 static void free_item_fn(uint64_t i)
 {
 	uint64_t c = combos(scen_arg);
